@@ -883,7 +883,7 @@ func TestVerifC09(t *testing.T) {
 	}
 
 	r := vfNewRand(out.Seed)
-	n := out.Scale(450, 3000)
+	n := out.Scale(450, 2000)
 	for i := 0; i < n; i++ {
 		rr := r.Fork(uint64(i))
 		steps := 8 + rr.Intn(out.Scale(28, 60))
